@@ -10,6 +10,7 @@ THEOREMS = [
     ("EG.props.C09", "C09_reject_only_when_horizon_full"),
     ("EG.props.C09", "C09_release_period_is_slot_block"),
     ("EG.props.C09", "C09_model_passes_checker"),
+    ("EG.props.C09", "C09_trace_checker_sound"),
     ("EG.props.C09", "C09_mqtt_single"),
     ("EG.props.C09", "C09_mqtt_multi"),
     ("EG.props.C09", "C09_unmatched_url_unlimited"),
